@@ -188,6 +188,11 @@ def main(argv=None):
         print('  -> %s %s tags=%s count=%d' % (v['api'], v['check'], ','.join(v['tags']), v['count']))
         if v['witnesses']:
             print('     witness: %s' % json.dumps(v['witnesses'][0])[:600])
+    if os.environ.get('VERIF_DEBUG_OTHER'):
+        os.makedirs(replay_dir, exist_ok=True)
+        for i, v in enumerate(other):
+            with open(os.path.join(replay_dir, 'other_%d.json' % i), 'w') as f:
+                json.dump(v, f, indent=1)
     printed = set()
     for k, v in known_seen:
         kid = json.dumps([k['property'], k['api'], k['check'], k.get('tags', [])])
